@@ -3,7 +3,9 @@ package props
 import (
 	structform "github.com/elastic/go-structform"
 	"github.com/elastic/go-structform/gotype"
+	"github.com/elastic/go-structform/json"
 
+	"verif/harness/ev"
 	"verif/harness/gen"
 	"verif/harness/rt"
 )
@@ -139,3 +141,58 @@ func aliasCheck(h *rt.H, c *codec) {
 func ALIAS_cborl(h *rt.H)  { aliasCheck(h, cborCodec) }
 func ALIAS_ubjson(h *rt.H) { aliasCheck(h, ubjsonCodec) }
 func ALIAS_json(h *rt.H)   { aliasCheck(h, jsonCodec) }
+
+// ALIAS_JSONEscaped (C15): JSON strings and keys with escape sequences are unquoted
+// into a parser-owned buffer (beyond 56 raw bytes: into a freshly sized one). The
+// strings a visitor received through OnString/OnKey (not the ...Ref events) and kept
+// must not change when the parser goes on to unquote the following strings of the
+// same document and of a follow-up document. Lengths straddle the literal buffer
+// size; the leading bytes are symbolic.
+func ALIAS_JSONEscaped(h *rt.H) {
+	lens := []int{1, 20, 54, 57, 70}
+	l1 := lens[h.Choose("len1", 0, 4)]
+	l2 := lens[h.Choose("len2", 0, 4)]
+	mk := func(name string, n int) []byte {
+		b := make([]byte, n)
+		copy(b, letters(h, name, 1))
+		for i := 1; i < n; i++ {
+			b[i] = byte('a' + i%26)
+		}
+		return b
+	}
+	s1, s2 := mk("s1", l1), mk("s2", l2)
+	asKey := h.Choose("asKey", 0, 1) == 1
+	var doc []byte
+	quoted := func(s []byte) []byte { return append(append([]byte(`"\t`), s...), '"') }
+	if asKey {
+		doc = append(append(append(append([]byte(`{`), quoted(s1)...), []byte(`:1,`)...), quoted(s2)...), []byte(`:2}`)...)
+	} else {
+		doc = append(append(append(append([]byte(`[`), quoted(s1)...), ','), quoted(s2)...), ']')
+	}
+	doc2 := []byte(`["\nQQQQQQQQQQQQQQQQQQQQQQQQQQQQQQQQQQQQQQQQQQQQQQQQQQQQQQQQQQQQQQQQQQQQQQQQQQQQQQ"]`)
+	var rec ev.KeepRecorder
+	p := json.NewParser(&rec)
+	cut := 0
+	if h.Choose("split", 0, 1) == 1 {
+		cut = h.Choose("cut", 1, len(doc)-1)
+	}
+	feed := func(b []byte) error {
+		chunk := cloneBytes(b)
+		_, e := p.Write(chunk)
+		for i := range chunk {
+			chunk[i] = 0xAA
+		}
+		return e
+	}
+	err := feed(doc[:cut])
+	if err == nil {
+		err = feed(doc[cut:])
+	}
+	h.Assert("doc1-parsed", err == nil)
+	h.Assert("doc2-parsed", feed(doc2) == nil)
+	h.Assert("strings-seen", len(rec.Kept) == 3)
+	if len(rec.Kept) == 3 {
+		h.Assert("retained-1", rt.BytesEq([]byte(rec.Kept[0]), append([]byte{'\t'}, s1...)))
+		h.Assert("retained-2", rt.BytesEq([]byte(rec.Kept[1]), append([]byte{'\t'}, s2...)))
+	}
+}
